@@ -1225,3 +1225,89 @@ func c03GoroutineSharesLoopVar(c *Ctx, rule string, fns []*ssa.Function) {
 	}
 	c.R.Check(len(bad) == 0, rule, "match: no goroutine shares a loop's variable with the loop", "match/match.go", fmt.Sprintf("%d functions, %d go statements: none captures a variable that the loop around it assigns", len(all), ngo), strings.Join(bad, "; ")+": the goroutine sees the value of whatever iteration the loop has reached, so the result depends on scheduling (and the variable is read and written concurrently)")
 }
+
+// c01AppendInLoopShares: inside a loop over alternatives, append(base, x) with
+// a base that comes from outside the loop and is not the accumulator of the
+// loop (the result does not flow back into base) hands out, iteration after
+// iteration, slices that can share one backing array: the record of one
+// alternative is overwritten by the next.
+func c01AppendInLoopShares(c *Ctx, rule string, fns []*ssa.Function) {
+	var bad []string
+	n := 0
+	for _, f := range fns {
+		if prog.PkgOf(f) != "match" {
+			continue
+		}
+		loops := flow.Loops(f)
+		ssau.Instrs(f, func(in ssa.Instruction) {
+			cl, ok := in.(*ssa.Call)
+			if !ok {
+				return
+			}
+			b, isB := cl.Common().Value.(*ssa.Builtin)
+			if !isB || b.Name() != "append" {
+				return
+			}
+			n++
+			base := cl.Common().Args[0]
+			if _, isC := base.(*ssa.Const); isC {
+				return
+			}
+			// innermost loop around the call
+			var L *flow.Loop
+			for _, l := range loops {
+				if l.Blocks[cl.Block()] && (L == nil || len(l.Blocks) < len(L.Blocks)) {
+					L = l
+				}
+			}
+			if L == nil {
+				return
+			}
+			bi, isInstr := base.(ssa.Instruction)
+			if isInstr && L.Blocks[bi.Block()] {
+				// defined in the loop: the accumulator (a phi fed by the result) or a value of this iteration
+				if phi, isPhi := base.(*ssa.Phi); isPhi {
+					fed := false
+					for _, e := range phi.Edges {
+						if e == ssa.Value(cl) {
+							fed = true
+						}
+					}
+					if fed || phi.Block() != L.Header {
+						return
+					}
+					// a header phi not fed by this append: carried around the loop unchanged
+				} else {
+					return
+				}
+			}
+			// a load of a variable that the result is stored back into
+			if ld, isLd := base.(*ssa.UnOp); isLd {
+				for _, r := range ssau.Referrers(cl) {
+					if st, isSt := r.(*ssa.Store); isSt && st.Addr == ld.X {
+						return
+					}
+				}
+			}
+			// is the result kept?
+			kept := false
+			for _, r := range ssau.Referrers(cl) {
+				switch r.(type) {
+				case *ssa.Store, *ssa.Call, *ssa.Return, *ssa.MapUpdate, *ssa.Phi, *ssa.MakeInterface:
+					kept = true
+				}
+			}
+			if kept {
+				bad = append(bad, fmt.Sprintf("%s appends to a slice from outside the loop and keeps the result (%s)", fname(f), c.pos(in)))
+			}
+		})
+	}
+	if n == 0 {
+		c.R.Break(rule + ": no append in the matcher")
+		return
+	}
+	if len(bad) > 2 {
+		bad = bad[:2]
+	}
+	c.R.Check(len(bad) == 0, rule, "match: records of alternatives do not share a backing array", "match/match.go", fmt.Sprintf("%d appends: in a loop, the base is the loop's own accumulator or a value of that iteration", n), strings.Join(bad, "; ")+": two iterations can be handed the same backing array, so what one alternative recorded is overwritten by the next")
+}
